@@ -13,6 +13,8 @@ REGISTRY = {
     'C01': ('c01', []),
     'C02': ('c02', []),
     'C18': ('c18', []),
+    'C10': ('c10', []),
+    'C05': ('c05', ['rounding bound of DESIGN 3.3: |float - exact| <= 2^-30 * sum|terms| (harness/lagr.py)']),
 }
 
 
